@@ -325,6 +325,13 @@ class Translator:
                     else:
                         txt = [self.emit_function(mod, node, arith)]
                     body += txt
+                    ap = angle_params(node)
+                    if ap is not None:
+                        body.append(f'/-- parameters of `{n}` that the source reads ONLY through `angular_typecheck` (so an angle '
+                                    f'object and its decimal-degree value are indistinguishable to the function): established '
+                                    f'syntactically by the translator, which models `angular_typecheck` as the identity on numbers -/\n'
+                                    f'def {lean_ident(n)}_angle_params : List String := ['
+                                    + ', '.join(f'"{a}"' for a in ap) + ']\n')
                 except TranslateError as e:
                     del self.dropped[mark:]
                     self.failed[key] = str(e)
@@ -639,6 +646,49 @@ def emit_dispatch(tr, config):
             sigs[f'{mod.leanname}.catalogue_{cname}'] = {'params': [], 'tokens': 0, 'raising': False, 'catalogue': cname}
     out += ['  | _ => "unknown-function"', '', 'end GenF', '']
     return '\n'.join(out), sigs
+
+
+def angle_params(fn):
+    """The parameters of `fn` every read of which is the direct argument of `angular_typecheck(...)`, either everywhere or
+    up to an unconditional top-level rebinding `p = <expression reading p only that way>` (after which `p` is a number).
+    None when the function never calls angular_typecheck."""
+    if not any(isinstance(n, ast.Call) and isinstance(n.func, ast.Name) and n.func.id == 'angular_typecheck' for n in ast.walk(fn)):
+        return None
+    params = [a.arg for a in fn.args.args]
+
+    def reads(node, p):
+        """(guarded reads, bare reads) of name p inside node"""
+        guarded = bare = 0
+        skip = set()
+        for n in ast.walk(node):
+            if isinstance(n, ast.Call) and isinstance(n.func, ast.Name) and n.func.id == 'angular_typecheck' \
+                    and len(n.args) == 1 and isinstance(n.args[0], ast.Name) and n.args[0].id == p:
+                guarded += 1
+                skip.add(id(n.args[0]))
+        for n in ast.walk(node):
+            if isinstance(n, ast.Name) and n.id == p and isinstance(n.ctx, ast.Load) and id(n) not in skip:
+                bare += 1
+        return guarded, bare
+    out = []
+    for p in params:
+        ok = None
+        for st in fn.body:
+            g, b = reads(st, p)
+            rebinds = isinstance(st, ast.Assign) and len(st.targets) == 1 and isinstance(st.targets[0], ast.Name) \
+                and st.targets[0].id == p
+            if b:
+                ok = False
+                break
+            if g and rebinds:
+                ok = True
+                break
+            if g:
+                ok = True       # keep scanning: every later read has to be guarded as well
+            elif any(isinstance(n, ast.Name) and n.id == p and isinstance(n.ctx, ast.Store) for n in ast.walk(st)):
+                break           # rebound to something else before any read
+        if ok:
+            out.append(p)
+    return out
 
 
 def assigned_names(stmts):
@@ -1308,6 +1358,11 @@ class Env:
             if isinstance(f, ast.Attribute) and isinstance(f.value, ast.Name) and f.value.id == 'np':
                 if f.attr == 'array':
                     lst = node.args[0]
+                    if isinstance(lst, ast.List) and lst.elts and not any(isinstance(r, ast.List) for r in lst.elts):
+                        # a 1-D array: a column for `@`/np.matmul on its left operand, read back with one index
+                        m = SymMat(len(lst.elts), 1, [[self.as_num(*ex(e), node)] for e in lst.elts])
+                        m.vec = True
+                        return m
                     if not (isinstance(lst, ast.List) and all(isinstance(r, ast.List) for r in lst.elts)):
                         self.err(node, 'np.array needs a literal list of lists')
                     rows = []
@@ -1322,6 +1377,9 @@ class Env:
                         self.err(node, 'np.zeros needs a literal 2-tuple shape')
                     r, c = [self.const_int(e) for e in sh.elts]
                     return SymMat(r, c, [[ZERO] * c for _ in range(r)])
+                if f.attr == 'matmul' and len(node.args) == 2 and not node.keywords:
+                    return self.mexpr(ast.BinOp(left=node.args[0], op=ast.MatMult(), right=node.args[1],
+                                                lineno=node.lineno, col_offset=node.col_offset), selfname, selffields)
                 self.err(node, f'unsupported numpy call np.{f.attr}')
             if isinstance(f, ast.Attribute) and f.attr == 'transpose' and not node.args:
                 m = self.mexpr(f.value, selfname, selffields)
@@ -1367,7 +1425,9 @@ class Env:
                                 acc = f'({acc} + {t})'
                             row.append(acc)
                     rows.append(row)
-                return SymMat(a.r, b.c, rows)
+                res = SymMat(a.r, b.c, rows)
+                res.vec = getattr(b, 'vec', False)
+                return res
             a = self.mexpr(node.left, selfname, selffields)
             b = self.mexpr(node.right, selfname, selffields)
             if a is None and b is None:
@@ -1452,7 +1512,9 @@ class Env:
                     self.pending.append(f'let {nm} := {x}')
                     row.append(nm)
             rows.append(row)
-        return SymMat(m.r, m.c, rows)
+        res = SymMat(m.r, m.c, rows)
+        res.vec = getattr(m, 'vec', False)
+        return res
 
     def flush_pending(self, indent):
         I = self.ind(indent)
@@ -1475,6 +1537,15 @@ class Env:
             if not (0 <= i < m.r and 0 <= j < m.c):
                 self.err(node, f'matrix index [{i}, {j}] out of range for shape {m.r}x{m.c} (Python: IndexError)')
             return m.e[i][j] if m.e[i][j] is not ZERO else f'(0 : {self.T})'
+        if not isinstance(idx, ast.Tuple) and not isinstance(node.value, ast.Subscript):
+            m = self.mexpr(node.value, selfname, selffields) if isinstance(node.value, ast.Name) and node.value.id in self.mats else None
+            if m is not None and getattr(m, 'vec', False):
+                i = self.const_int(idx)
+                if i is None:
+                    self.err(node, 'vector index must be constant')
+                if not (0 <= i < m.r):
+                    self.err(node, f'vector index [{i}] out of range for length {m.r} (Python: IndexError)')
+                return m.e[i][0] if m.e[i][0] is not ZERO else f'(0 : {self.T})'
         if isinstance(node.value, ast.Subscript) and not isinstance(node.value.slice, ast.Tuple):
             m = self.mexpr(node.value.value, selfname, selffields)
             if m is None:
